@@ -31,7 +31,11 @@ ASSUMPTIONS = [
 SHAPE = (12, 12, 12)
 ROTSETS = {
     "K1": None,
+    # a single searched rotation that is not the identity (a fixed re-orientation)
+    "K1-obj": [("rotvec", (0.0, 0.0, 0.5))],
     "K2-obj": [("rotvec", (0.0, 0.0, 0.5)), ("rotvec", (0.0, 0.0, 0.0))],
+    # the identity is the first element, not the middle one
+    "K3-obj-id-first": [("rotvec", (0.0, 0.0, 0.0)), ("rotvec", (0.0, 0.4, 0.0)), ("rotvec", (0.0, 0.8, 0.0))],
     "K3-obj": [("rotvec", (0.45, 0.0, 0.0)), ("rotvec", (0.0, 0.0, 0.0)), ("rotvec", (0.0, -0.5, 0.3))],
     "K3-range": ((0, 0), (0, 0), (25, 25)),
     "K5-range": ((0, 0), (40, 20), (0, 0)),
@@ -61,11 +65,11 @@ def _rotations_arg(name):
 
 
 def _K(name):
-    return {"K1": 1, "K2-obj": 2, "K3-obj": 3, "K3-range": 3, "K5-range": 5, "K9-range": 9, "K125-range": 125}[name]
+    return {"K1": 1, "K1-obj": 1, "K3-obj-id-first": 3, "K2-obj": 2, "K3-obj": 3, "K3-range": 3, "K5-range": 5, "K9-range": 9, "K125-range": 125}[name]
 
 
 def _rotsets(tier):
-    return ["K1", "K2-obj", "K3-obj", "K3-range", "K5-range"] + (["K9-range"] if tier == "thorough" else [])
+    return ["K1", "K1-obj", "K2-obj", "K3-obj", "K3-obj-id-first", "K3-range", "K5-range"] + (["K9-range"] if tier == "thorough" else [])
 
 
 def AXES(tier):
@@ -186,15 +190,17 @@ def run_case(case):
         viol.append((sig("Model.align", "label"), f"planted (template {j}, rotation {k}) of T={T}, K={K}; label {lab} decodes to template {lab % T}, rotation {lab // T}"))
     if np.abs(np.asarray(res.shift) - d).max() > (0.5 if mname == "FSC" else 0.15):
         viol.append((sig("Model.align", "shift"), f"planted d={d.tolist()}, reported {np.round(res.shift, 3).tolist()} (j={j}, k={k}, T={T}, K={K})"))
-    if T == 1:
+    if T == 1 or mname != "FSC":
         fitted, r2 = model.fit(img, MAXSHIFT)
         kk2 = _which_rotation(r2.quat, quats)
         if kk2 != k:
-            viol.append((sig("Model.fit", "rotation"), f"planted rotation {k} of K={K}; fit reported index {kk2}"))
+            viol.append((sig("Model.fit", "rotation"), f"planted (template {j}, rotation {k}) of T={T}, K={K}; fit reported rotation index {kk2}"))
+        if T > 1 and int(r2.label) % T != j:
+            viol.append((sig("Model.fit", "label"), f"planted (template {j}, rotation {k}) of T={T}, K={K}; fit reported label {int(r2.label)}"))
         if np.abs(np.asarray(r2.shift) - d).max() > (0.5 if mname == "FSC" else 0.15):
             viol.append((sig("Model.fit", "shift"), f"planted d={d.tolist()}, fit reported {np.round(r2.shift, 3).tolist()}"))
         # the fitted image must be superimposed on the template
-        t = model.template.astype(np.float64)
+        t = (model.template if T == 1 else model.template[j]).astype(np.float64)
         a = fitted - fitted.mean()
         b = t - t.mean()
         cc = float((a * b).sum() / np.sqrt((a * a).sum() * (b * b).sum()))
@@ -236,7 +242,7 @@ def _run_brute(case):
     for j in range(T):
         for k in range(K):
             Rk = Rotation.from_quat(quats[k]).as_matrix()
-            tt = tm[j] if K == 1 else _rotated_template(tm[j], Rk, cval).astype(np.float32)
+            tt = tm[j] if np.allclose(Rk, np.eye(3)) else _rotated_template(tm[j], Rk, cval).astype(np.float32)  # (a single non-identity rotation is a rotation too)
             singles[(j, k)] = cls(tt)
     for ii, img in enumerate(imgs):
         res = model.align(img, MAXSHIFT)
